@@ -25,6 +25,7 @@ import (
 
 	"verif/harness/fsrc"
 	"verif/harness/logcap"
+	"verif/harness/netx"
 	"verif/harness/stats"
 )
 
@@ -58,7 +59,7 @@ var (
 
 func closerListener() string {
 	closerOnce.Do(func() {
-		ln, err := net.Listen("tcp", "127.0.0.1:0")
+		ln, err := netx.Listen()
 		if err != nil {
 			panic(err)
 		}
@@ -391,7 +392,9 @@ func c05Full(t *rapid.T) {
 	c := drawC05(t, maxRdb, 65536, false)
 	reconnect := rapid.IntRange(0, 2).Draw(t, "reconnect") == 0
 	src := fsrc.New(srcSentinel, fsrc.Plan{Steps: c.steps()}, fsrc.Plan{Steps: []fsrc.Step{{Send: []byte("+CONTINUE\r\n"), Sleep: 20 * time.Second}}})
-	defer src.Close()
+	// the tool's reconnect loop never gives up: keep the port (refusing) until the left-over goroutine has ended through
+	// its abort path, otherwise it reaches whichever later case gets the same port and asks it for this case's run id
+	defer src.Retire(3 * time.Second)
 	ds := newSyncer(0)
 	ask := "?"
 	ds.VerifSetResume("", 0, -1, "")
@@ -449,7 +452,6 @@ func c05Full(t *rapid.T) {
 		}
 		cls = append(cls, "full-path-reconnect")
 	}
-	src.Close()
 	stats.C.Case(c.nontrivial(), stats.Hash(c.stream, []byte(desc)), cls...)
 	if c.nontrivial() && len(desc) < 300 {
 		stats.C.Sample("full path: " + desc)
